@@ -185,26 +185,85 @@ func ruleChannels(r *Run) {
 		}
 		return ops[i].ins.Pos() < ops[j].ins.Pos()
 	})
+	// the protocol is kept per top-level function: which literal of Subscribe performs an
+	// operation (or whether the literal became a named function spawned from it) is layout
+	proto := map[string]tabEntry{}
+	hasOwn := map[string]bool{}
+	for k, e := range chanProtocol {
+		parts := strings.SplitN(k, " | ", 2)
+		f := parts[0]
+		top := f
+		if i := strings.Index(top, "$"); i >= 0 {
+			top = top[:i]
+		}
+		hasOwn[top] = true
+		// who creates and who closes a channel stays tied to the exact function (literal
+		// included): moving a close from the spawner into the reader changes who may still
+		// be sending; sends, receives and selects are grouped per top-level function
+		if !strings.HasSuffix(k, "| close") && !strings.HasSuffix(k, "| make") {
+			f = top
+		}
+		nk := f + " | " + parts[1]
+		if old, ok := proto[nk]; ok {
+			old.N += e.N
+			if !strings.Contains(old.Reason, e.Reason) {
+				old.Reason += " | " + e.Reason
+			}
+			proto[nk] = old
+		} else {
+			proto[nk] = e
+		}
+	}
+	owner := func(fn *ssa.Function) string {
+		top := topFn(fn)
+		name := fnName(top)
+		if hasOwn[name] {
+			return name
+		}
+		// a helper without protocol lines of its own that only one function calls/spawns
+		var caller *ssa.Function
+		for _, e := range r.P.CG.In[top] {
+			if e.Kind == "param" {
+				continue
+			}
+			t := topFn(e.Caller)
+			if t == top {
+				continue
+			}
+			if caller != nil && caller != t {
+				return name
+			}
+			caller = t
+		}
+		if caller != nil && caller.Pkg == top.Pkg && hasOwn[fnName(caller)] {
+			return fnName(caller)
+		}
+		return name
+	}
 	seen := map[string]int{}
+	chanProtocolN := proto
 	for _, op := range ops {
-		key := fnName(op.fn) + " | " + op.ch + " | " + op.kind
+		key := owner(op.fn) + " | " + op.ch + " | " + op.kind
+		if op.kind == "close" || op.kind == "make" {
+			key = fnName(op.fn) + " | " + op.ch + " | " + op.kind
+		}
 		seen[key]++
 		site := r.P.pos(op.ins.Pos())
-		if e, ok := chanProtocol[key]; ok && seen[key] <= e.N {
+		if e, ok := chanProtocolN[key]; ok && seen[key] <= e.N {
 			r.Tabled(rule, fnName(op.fn), op.kind+" "+op.ch, site, "chanProtocol", e.Reason)
 		} else {
 			r.Bad(rule, fnName(op.fn), op.kind+" "+op.ch, site, "channel operation outside the frozen teardown/delivery protocol (new operation, different channel, or a plain operation turned into a select alternative / vice versa): the hand-checked argument for close/stop/complete interleavings no longer covers this code")
 		}
 	}
 	var keys []string
-	for k := range chanProtocol {
+	for k := range chanProtocolN {
 		keys = append(keys, k)
 	}
 	sort.Strings(keys)
 	for _, k := range keys {
-		if seen[k] < chanProtocol[k].N {
+		if seen[k] < chanProtocolN[k].N {
 			parts := strings.Split(k, " | ")
-			r.Bad(rule, parts[0], "missing "+parts[2]+" "+parts[1], "-", fmt.Sprintf("the protocol expects %d `%s` operation(s) on %s in %s, found %d: a handshake step was removed or changed form (e.g. a blocking send/receive became one alternative of a select)", chanProtocol[k].N, parts[2], parts[1], parts[0], seen[k]))
+			r.Bad(rule, parts[0], "missing "+parts[2]+" "+parts[1], "-", fmt.Sprintf("the protocol expects %d `%s` operation(s) on %s in %s, found %d: a handshake step was removed or changed form (e.g. a blocking send/receive became one alternative of a select)", chanProtocolN[k].N, parts[2], parts[1], parts[0], seen[k]))
 		}
 	}
 	// ownership: close only by the sole sender, else table / finding
